@@ -58,7 +58,10 @@ func gen(r *sim.Rng, tier string) *sim.Case {
 		if r.Pct(15) {
 			p["limit"] = 0
 		}
-		p["breaker"] = r.N(3) // 0 none, 1 prefer fewer items, 2 prefer new
+		p["breaker"] = r.Pick(3, 3, 3, 1) // 0 none, 1 prefer fewer items, 2 prefer new, 3 prefer fewer and call the package from inside
+		if r.Pct(15) {
+			p["again"] = 1 // an unrelated second call before the first result is read
+		}
 		p["over"] = r.N(2)
 	case 2:
 		nv := r.Range(1, 9)
@@ -66,6 +69,9 @@ func gen(r *sim.Rng, tier string) *sim.Case {
 			nv = r.Range(10, 13)
 		}
 		p["nv"] = nv
+		if r.Pct(15) {
+			p["again"] = 1
+		}
 		p["vt"] = r.N(5) // vertex type: int, string, struct, labels with spaces, struct with a non-unique String()
 		kind := r.Pick(4, 2, 1, 1)
 		p["gkind"] = kind
@@ -170,8 +176,41 @@ func breakerOf(k int) []func(old, new []item) bool {
 		return []func(old, new []item) bool{func(o, n []item) bool { return len(n) < len(o) }}
 	case 2:
 		return []func(old, new []item) bool{func(o, n []item) bool { return true }}
+	case 3:
+		// a tie-breaker that itself uses the package (calls share nothing)
+		return []func(old, new []item) bool{func(o, n []item) bool {
+			small := []item{{0, 2, 3}, {1, 3, 4}, {2, 4, 5}, {3, 5, 6}}
+			s := algz.Knapsack(5, small, func(i item) int { return i.w }, func(i item) int { return i.v })
+			d := algz.FindDpSolvers(6, small, func(i item) int { return i.w }, true)
+			_ = d.Best(6)
+			return len(n) < len(o) && len(s) == 2
+		}}
 	}
 	return nil
+}
+
+// secondCall makes another, unrelated call between a call and the reading of its result: the
+// first result must not live in memory the package hands out again.
+func secondCall(c *sim.Case, out *sim.WorkerOut, its []item, limit int) {
+	if c.P("again") != 1 {
+		return
+	}
+	out.Probes["second_call_before_first_result_is_read"]++
+	other := make([]item, len(its))
+	for i := range its {
+		o := its[len(its)-1-i]
+		other[i] = item{idx: i, w: o.w + 1, v: o.v + 2}
+	}
+	wf, vf := func(i item) int { return i.w }, func(i item) int { return i.v }
+	_ = algz.Knapsack(limit+3, other, wf, vf, breakerOf(c.P("breaker"))...)
+	d := algz.FindDpSolvers(limit+3, other, wf, c.P("over") == 1, breakerOf(c.P("breaker"))...)
+	_ = d.Best(limit)
+	var g algz.Graph[int]
+	for i := 0; i < 5; i++ {
+		g.AddUndirectedEdge(i, (i+1)%5)
+		g.AddUndirectedEdge(i, (i+2)%5)
+	}
+	_ = g.GetMaximalCliques()
 }
 
 func knap(c *sim.Case, out *sim.WorkerOut, dg *engc.Digest) *sim.Violation {
@@ -181,6 +220,7 @@ func knap(c *sim.Case, out *sim.WorkerOut, dg *engc.Digest) *sim.Violation {
 		limit = 0
 	}
 	sel := algz.Knapsack(limit, its, func(i item) int { return i.w }, func(i item) int { return i.v }, breakerOf(c.P("breaker"))...)
+	secondCall(c, out, its, limit)
 	if v := distinct(sel, "Knapsack"); v != nil {
 		return v
 	}
@@ -238,6 +278,7 @@ func solvers(c *sim.Case, out *sim.WorkerOut, dg *engc.Digest) *sim.Violation {
 	}
 	over := c.P("over") == 1
 	dp := algz.FindDpSolvers(limit, its, func(i item) int { return i.w }, over, breakerOf(c.P("breaker"))...)
+	secondCall(c, out, its, limit)
 	// brute force: attainable totals
 	att := map[int]bool{}
 	if len(its) <= 17 {
@@ -438,6 +479,7 @@ func cliquesT[T comparable](c *sim.Case, out *sim.WorkerOut, dg *engc.Digest, mk
 		adj[op.K][op.V], adj[op.V][op.K] = true, true
 	}
 	got := g.GetMaximalCliques()
+	secondCall(c, out, nil, 4)
 	// brute force
 	isClique := func(m int) bool {
 		for a := 0; a < nv; a++ {
